@@ -136,6 +136,7 @@ impl StringPoolBuilder {
 // ========================================================================= //
 
 /// The string pool for an MSI package.
+#[derive(Clone)]
 pub struct StringPool {
     codepage: CodePage,
     strings: Vec<(String, u16)>,
@@ -207,9 +208,55 @@ impl StringPool {
         }
     }
 
+    /// Returns the maximum number of strings (including empty entries) that
+    /// string references can address.
+    fn max_num_strings(&self) -> usize {
+        // TODO: When the number of strings exceeds u16::MAX, we need to
+        // rewrite all database tables from short to long string refs.
+        if self.long_string_refs {
+            MAX_STRING_REF as usize
+        } else {
+            u16::MAX as usize
+        }
+    }
+
+    /// Returns true if the pool is certain to have room for the given number
+    /// of additional string references.
+    pub(crate) fn has_room_for(&self, num_refs: usize) -> bool {
+        self.strings.len() + num_refs <= self.max_num_strings()
+    }
+
+    /// Returns true if all of the given strings can be added to the pool (in
+    /// that order) without exceeding the number of strings that string
+    /// references can address.  Does not modify the pool.
+    pub(crate) fn can_intern_all<'a, I>(&self, strings: I) -> bool
+    where
+        I: Iterator<Item = &'a str>,
+    {
+        let strings: Vec<&str> = strings.collect();
+        if self.has_room_for(strings.len()) {
+            return true;
+        }
+        let mut trial = self.clone();
+        strings
+            .into_iter()
+            .all(|string| trial.try_incref(string.to_string()).is_some())
+    }
+
     /// Inserts a string into the pool, or increments its refcount if it's
     /// already in the pool, and returns the index of the string in the pool.
+    /// Panics if the pool is full; use `can_intern_all()` or `try_incref()` to
+    /// avoid that.
     pub fn incref(&mut self, string: String) -> StringRef {
+        match self.try_incref(string) {
+            Some(string_ref) => string_ref,
+            None => panic!("Too many distinct strings in string pool"),
+        }
+    }
+
+    /// Like `incref()`, but returns `None` instead of panicking if the string
+    /// would need a new entry and the pool is full.
+    pub(crate) fn try_incref(&mut self, string: String) -> Option<StringRef> {
         self.is_modified = true;
         // TODO: change the internal representation of StringPool to make this
         // more efficient.
@@ -220,26 +267,18 @@ impl StringPool {
                 debug_assert_eq!(st, "");
                 *st = string;
                 *refcount = 1;
-                return StringRef((index + 1) as i32);
+                return Some(StringRef((index + 1) as i32));
             }
             if *st == string && *refcount < u16::MAX {
                 *refcount += 1;
-                return StringRef((index + 1) as i32);
+                return Some(StringRef((index + 1) as i32));
             }
         }
-        if self.strings.len() >= u16::MAX as usize && !self.long_string_refs {
-            // TODO: If this happens, we need to rewrite all database tables
-            // from short to long string refs.
-            panic!(
-                "Too many strings; rewriting to long string refs is not \
-                    yet supported"
-            );
-        }
-        if self.strings.len() >= MAX_STRING_REF as usize {
-            panic!("Too many distinct strings in string pool");
+        if self.strings.len() >= self.max_num_strings() {
+            return None;
         }
         self.strings.push((string, 1));
-        StringRef(self.strings.len() as i32)
+        Some(StringRef(self.strings.len() as i32))
     }
 
     /// Decrements the refcount of a string in the pool.
